@@ -6,6 +6,9 @@ package aclchain
 
 import (
 	"bytes"
+	"encoding/base32"
+	"math/big"
+	"strings"
 	"crypto/sha256"
 	"encoding/hex"
 	"encoding/json"
@@ -391,3 +394,52 @@ func (a fullObs) diff(b fullObs) string {
 }
 
 func sameBytes(a, b []byte) bool { return bytes.Equal(a, b) }
+
+// ---------------------------------------------------------------------------------------------
+// other spellings of a record id: a CID string names a digest through a version, a content codec
+// and a text encoding; the list works with the one canonical spelling (CIDv1, dag-cbor, base32).
+
+type idAlias struct{ name, id string }
+
+var b32 = base32.NewEncoding("abcdefghijklmnopqrstuvwxyz234567").WithPadding(base32.NoPadding)
+
+const b58Alphabet = "123456789ABCDEFGHJKLMNPQRSTUVWXYZabcdefghijkmnopqrstuvwxyz"
+
+func base58(b []byte) string {
+	x := new(big.Int).SetBytes(b)
+	mod, radix, zero := new(big.Int), big.NewInt(58), big.NewInt(0)
+	var out []byte
+	for x.Cmp(zero) > 0 {
+		x.DivMod(x, radix, mod)
+		out = append(out, b58Alphabet[mod.Int64()])
+	}
+	for _, c := range b {
+		if c != 0 {
+			break
+		}
+		out = append(out, b58Alphabet[0])
+	}
+	for i, j := 0, len(out)-1; i < j; i, j = i+1, j-1 {
+		out[i], out[j] = out[j], out[i]
+	}
+	return string(out)
+}
+
+// idAliases: the same sha2-256 digest under the raw codec, in base58btc, as a CIDv0 and in upper-case base32
+func idAliases(id string) []idAlias {
+	if len(id) < 2 || id[0] != 'b' {
+		return nil
+	}
+	raw, err := b32.DecodeString(id[1:])
+	if err != nil || len(raw) != 36 || raw[0] != 0x01 {
+		return nil
+	}
+	rawCodec := append([]byte(nil), raw...)
+	rawCodec[1] = 0x55
+	return []idAlias{
+		{"raw-codec", "b" + b32.EncodeToString(rawCodec)},
+		{"base58btc", "z" + base58(raw)},
+		{"cidv0", base58(raw[2:])},
+		{"base32upper", "B" + strings.ToUpper(b32.EncodeToString(raw))},
+	}
+}
